@@ -517,6 +517,10 @@ class SVGPath(SVGShape, SVGCommandSeq):
         def subpaths_callback(subpath_start, curr_pos, cmd, args, *_unused):
             if cmd.upper() == "M":
                 subpaths.append(SVGPath())
+            elif not subpaths[-1].d:
+                # a command right after closepath starts a new subpath at the same
+                # initial point; say so, each returned subpath must stand alone
+                subpaths[-1]._add_cmd("M", *subpath_start)
             subpaths[-1]._add_cmd(cmd, *args)
             if cmd.upper() == "Z":
                 subpaths.append(SVGPath())
